@@ -107,6 +107,8 @@ package compiler
 //@   property C13 C14
 //@   requires [wired] s.aliaser != nil
 //@   ensures [default_type] serviceType == nil ==> result == "interface{}"
+//@   ensures [local_type_as_written] serviceType != nil && inLang(*serviceType, reFull("\\*?[A-Za-z][A-Za-z0-9_]*")) ==> result == *serviceType
+//@   ensures [pointer_prefix_kept] serviceType != nil && matches(*serviceType, regexServiceType) && hasPrefix(*serviceType, "*") ==> hasPrefix(result, "*")
 
 // ---- C02 / C04 / C15 / C12: the compiled output is a faithful, order-preserving image of the declared input.
 // resolve(x) below is what the injected argument resolver returns for x; resolving is a function of the argument
@@ -127,7 +129,7 @@ package compiler
 
 // every argument is resolved, in order; the whole list is accepted iff every argument is
 //@ func resolveArgs pure
-//@   property C02 C04 C12
+//@   property C02 C04 C12 C06 C07
 //@   requires [wired] resolver != nil
 //@   ensures [same_length] len(r) == len(args)
 //@   ensures [in_order] forall k int :: 0 <= k && k < len(args) ==> r[k] == argExprToArg(resolver.ResolveArg(args[k]).0)
@@ -152,7 +154,7 @@ package compiler
 
 // C02: calls keep their method, immutability flag and order; their arguments are resolved in order
 //@ func (StepCompileServices).serviceCalls pure
-//@   property C02 C12
+//@   property C02 C12 C06 C07
 //@   requires [wired] s.argResolver != nil
 //@   ensures [same_length] len(r) == len(calls)
 //@   ensures [in_order] forall k int :: 0 <= k && k < len(calls) ==>
@@ -168,7 +170,7 @@ package compiler
 
 // C02 / C08: one field per declared key, in strictly increasing key order, each with the resolved value of that key
 //@ func (StepCompileServices).serviceFields pure
-//@   property C02 C08 C12
+//@   property C02 C08 C12 C06 C07
 //@   requires [wired] s.argResolver != nil
 //@   ensures [names_are_keys] forall k int :: 0 <= k && k < len(r) ==> (r[k].Name in fields) && r[k].Value == argExprToArg(s.argResolver.ResolveArg(fields[r[k].Name]).0)
 //@   ensures [every_key_present] forall n string :: n in fields ==> (exists k int :: 0 <= k && k < len(r) && r[k].Name == n)
@@ -187,15 +189,17 @@ package compiler
 //@   property C02 C12
 //@   requires [wired] s.aliaser != nil
 //@   ensures [none] serviceValue == nil ==> result == ""
+//@   ensures [compiled_as_a_value_expression] serviceValue != nil ==> result == syntax.CompileServiceValue(s.aliaser, *serviceValue)
 //@ func (StepCompileServices).serviceConstructor
 //@   property C02 C12
 //@   requires [wired] s.aliaser != nil
 //@   ensures [none] c == nil ==> result == ""
+//@   ensures [local_function_as_written] c != nil && inLang(*c, reFull("[A-Za-z][A-Za-z0-9_]*")) ==> result == *c
 
 // C15 / C02: a todo service compiles to a bare placeholder carrying only its name (nothing else is looked at, nothing is
 // resolved); any other service keeps its name and is built from its own declaration, attribute by attribute.
 //@ func (StepCompileServices).processService pure
-//@   property C02 C15 C04 C13 C12
+//@   property C02 C15 C04 C13 C12 C06 C07
 //@   requires [wired] s.aliaser != nil && s.argResolver != nil
 //@   ensures [todo_placeholder] (i.Services[name].Todo != nil && *i.Services[name].Todo) ==>
 //@        result.1 == nil && o.Name == name && o.Todo && o.Getter == "" && !o.MustGetter && o.Type == "" && o.Value == "" && o.Constructor == ""
@@ -232,7 +236,7 @@ package compiler
 // C02 / C08 / C05: one compiled service per declared service, in strictly increasing name order, each the image of
 // its own declaration, with the scope of its declaration.
 //@ func (StepCompileServices).Process
-//@   property C02 C08 C05 C15 C12
+//@   property C02 C08 C05 C15 C12 C06 C07
 //@   requires o != nil
 //@   requires [wired] s.aliaser != nil && s.argResolver != nil
 //@   requires [declared_scopes_are_keywords] forall n string :: n in i.Services && i.Services[n].Scope != nil ==>
@@ -252,14 +256,14 @@ package compiler
 
 // C04: a decorator keeps its tag and its arguments (resolved in order); its function is the alias-qualified declared one
 //@ func (StepCompileDecorators).processDecorator pure
-//@   property C04 C12
+//@   property C04 C12 C06 C07
 //@   requires [wired] s.aliaser != nil && s.argResolver != nil
 //@   ensures [tag_and_raw] result.0.Tag == d.Tag && result.0.Raw == d.Decorator
 //@   ensures [args] result.0.Args == resolveArgs(s.argResolver, d.Args).0 && result.1 == resolveArgs(s.argResolver, d.Args).1
 
 // C04: decorators keep their declaration order (file order after merging)
 //@ func (StepCompileDecorators).Process
-//@   property C04 C12
+//@   property C04 C12 C06 C07
 //@   requires d != nil
 //@   requires [wired] s.aliaser != nil && s.argResolver != nil
 //@   modifies d.Decorators
